@@ -191,6 +191,49 @@ class C07(Prop):
                     break
             if snapshot(obj) != snap0:
                 out["issues"].append(f"op {k} {op['kind']}: fitted state changed by transform")
+        # frames with UNSEEN values: a row's label must not depend on the other rows of the frame.
+        # unseen values are injected only into qualitative features that have a default group; the
+        # injected values are known modalities of the other qualitative columns
+        vocab = sorted({v for f in case["features"] if f["kind"] != "quant" for v in decs(f["values"])
+                        if isinstance(v, str)})
+        Xu, _ = fresh()
+        injected = False
+        for f in case["features"]:
+            nm = f["name"]
+            if f["kind"] == "quant" or nm not in names or not vocab:
+                continue
+            if obj.str_default in obj.values_orders[nm].values():
+                col = list(Xu[nm])
+                for i in range(len(col)):
+                    if i % 5 == 2:
+                        col[i] = vocab[(i // 5) % len(vocab)]
+                Xu[nm] = pd.Series(col, dtype=object)
+                injected = True
+        if injected:
+            try:
+                fullu = obj.transform(Xu.copy())
+            except Exception:  # noqa: BLE001
+                fullu = None
+            if fullu is not None:
+                import random as _r
+                r_ = _r.Random(n)
+                sels = [[i] for i in r_.sample(range(n), min(6, n))] + [sorted(r_.sample(range(n), max(1, n // 3)))]
+                for sel in sels:
+                    try:
+                        part = obj.transform(Xu.iloc[sel].copy())
+                    except Exception as e:  # noqa: BLE001
+                        out["issues"].append(f"unseen-values frame: rows {sel[:4]} alone raise {type(e).__name__} "
+                                             "although the full frame is accepted")
+                        break
+                    bad = False
+                    for f_ in names:
+                        if [key(enc(x)) for x in part[f_]] != [key(enc(x)) for x in fullu[f_].iloc[sel]]:
+                            out["issues"].append(f"unseen-values frame: rows {sel[:4]} of feature {f_} get other "
+                                                 "labels alone than inside the full frame")
+                            bad = True
+                            break
+                    if bad:
+                        break
         if not fit_untouched:
             out["issues"].append("fit modified the caller's X / y / X_dev / y_dev although copy=True")
         # model comparison of the full transform (C04 encoding)
